@@ -341,6 +341,8 @@ class FullMetalBarrageComponent(
 
         if is_keydown_ended(event):
             state.penalty_lasting.set_time_left(self.homing_penalty_duration)
+            # the key-down ran out -keydown.time_left ms before the end of this elapse
+            state.penalty_lasting.elapse(-state.keydown.time_left)
 
         return state, event
 
